@@ -9,8 +9,11 @@ from ._c17_cache import ShapeFreeCacheAnalysis as CacheAnalysis, memo_getters
 
 
 def cache_rule(ctx, rule_id, prop_id, base_names, floor, clause, only_fields=None, only_props=None):
+    from ._c17_cache import use_project
+
     res = RuleResult(rule_id, prop_id, clause, floor=floor)
     p = ctx.p
+    use_project(p)
     classes = []
     for b in base_names:
         base = p.cls(b)
